@@ -54,7 +54,12 @@ func (t *Table) Apply(n engine.Node, ev string) (engine.Node, []V) {
 	return fn(n)
 }
 
-// haltViolation turns a failed block into a C19 violation.
+// haltViolation turns a failed block into a violation: a BeginBlock / EndBlock error or panic is a
+// C19 violation. Validator updates that CometBFT would reject (unknown validator removed, duplicate
+// key) mean the engine's set can no longer follow the application's: C15 on the provider, C01 on a
+// consumer. An update that would leave *no* validator is not judged: keeping at least one validator
+// bonded / opted in is an assumption on the environment (plain Cosmos chains halt the same way), the
+// branch is simply a dead end.
 func haltViolation(chain string, r env.BlockResult) []V {
 	h := r.Halt()
 	if h == "" {
@@ -63,6 +68,16 @@ func haltViolation(chain string, r env.BlockResult) []V {
 	first := h
 	if i := strings.Index(first, "\n"); i >= 0 {
 		first = first[:i]
+	}
+	if r.EngineErr != nil && r.Panic == "" && r.EndErr == nil {
+		if strings.Contains(r.EngineErr.Error(), "would become empty") {
+			return nil
+		}
+		prop := "C15"
+		if chain != "provider" {
+			prop = "C01"
+		}
+		return []V{{Property: prop, Key: "engine-rejects-updates:" + chain + ":" + classify(first), Msg: fmt.Sprintf("%s block %d: %s", chain, r.EndedHeight, h)}}
 	}
 	return []V{{Property: "C19", Key: "halt:" + chain + ":" + classify(first), Msg: fmt.Sprintf("%s block %d: %s", chain, r.EndedHeight, h)}}
 }
@@ -142,3 +157,6 @@ var c19Extra = func(tier string) []Unit { return nil }
 func abciVal(v env.Val, power int64) abci.Validator {
 	return abci.Validator{Address: v.ConsAddr(), Power: power}
 }
+
+// c12Extra is filled in by the slash scenario (slash packets carrying ids).
+var c12Extra = func(tier string) []Unit { return nil }
